@@ -373,3 +373,23 @@ reg["C20"]["harnesses"].append({"name": "VH_SN_Process", "pkg": "internal/app/su
 reg["C11"]["harnesses"].append({"name": "VH_C11_TickBackground", "pkg": "internal/kernel/system", "labels": ["C11:"], "reach": ["done"]})
 reg["C11"]["explanation"] += "; the real System.Tick admits every background coroutine within a bounded number of idle ticks for a scheduler intake capacity of 1 or 2 (fewer than the number of background coroutines)"
 reg["C11"]["outside"] = [o for o in reg["C11"]["outside"] if "System.Tick re-add predicate" not in o]
+
+LIFE = co(["VH_S_Lifecycle"], ["C10:lifecycle"], opts={"slots.callbacks": 0, "slots.locks": 0, "slots.schedules": 1, "slots.promises": 2, "slots.tasks": 2, "batch": 1, "faults": 0},
+          optsT={"slots.callbacks": 0, "slots.locks": 0, "slots.schedules": 2, "slots.promises": 3, "slots.tasks": 3, "batch": 2, "faults": 0}, reach={"VH_S_Lifecycle": ["first-firing", "second-firing"]}, pgquick=False)
+reg["C10"]["harnesses"] += LIFE
+reg["C20"]["harnesses"] += [dict(h) for h in LIFE]
+reg["C10"]["explanation"] += "; one process, sequentially: create, fire, delete, re-create under the same id with another configuration, fire again - the second firing carries the second configuration only (process-global state such as caches keyed by id is part of the execution)"
+
+# ---- fifth round (variants F)
+reg["C05"]["harnesses"] += [dict(h, reach=["committed", "failed"]) for h in store(["VH_C06_ExecuteAtomic", "VH_C06_ProcessError"], ["C06:"])]
+reg["C05"]["explanation"] += "; a registration or completion is acknowledged only if its transaction committed"
+reg["C08"]["harnesses"] += co(["VH_C07_Claim"], ["claim", "refus", "invalid"], opts=CLAIMOPT, reach=REACH_P)
+reg["C08"]["explanation"] += "; a claim naming the dispatched id and counter succeeds on a task that is unclaimed (hand-off recorded or not) and is refused with the status of what the task really is"
+reg["C19"]["harnesses"].append({"name": "VH_RT_New2", "pkg": "internal/app/subsystems/aio/router", "labels": ["C19:"], "reach": ["done"]})
+reg["C13"]["harnesses"].append({"name": "VH_RT_New2", "pkg": "internal/app/subsystems/aio/router", "labels": ["C13:"]})
+
+# the store's all-or-nothing contract (a result only if the commit succeeded) underlies every property about
+# stored state; it is posed by each of them
+for k in ("C02", "C03", "C04", "C07", "C08", "C09", "C10"):
+    if not any(h["name"] == "VH_C06_ExecuteAtomic" for h in reg[k]["harnesses"]):
+        reg[k]["harnesses"] += [dict(h, reach=["committed", "failed"]) for h in store(["VH_C06_ExecuteAtomic", "VH_C06_ProcessError"], ["C06:"])]
